@@ -45,6 +45,11 @@ func c08Queries() []c08Query {
 		{model.Or(model.And(ax, model.Eq("c", "1")), model.Eq("b", "y")), nil},
 		{model.Or(model.Eq("b", "y"), model.Eq("c", "2"), ax), nil},
 		{model.And(model.Not(ax), model.Not(model.Eq("b", "q")), model.Eq("c", "1")), nil},
+		// two group-by levels where, on index 0, the only selected row lacks the second column (the second level yields no
+		// group at all) while on index 1 it yields one: nothing resolved for one index may be used for the other
+		{model.And(ax, model.Not(model.Eq("b", "y")), model.Not(model.Eq("b", "z"))), []string{"a", "b"}},
+		// a group-by name that differs from a real column only in case: unknown on both indexes, and must stay as written
+		{ax, []string{"A"}},
 	}
 }
 
@@ -217,6 +222,67 @@ func c08Play(w *c08World, steps []c08Step, onlyLast bool) (viol string, key stri
 	return "", b.String()
 }
 
+type c08Args struct {
+	MaxDepth int `json:"max_depth"`
+}
+
+// c08Worker: every sequence of executions up to MaxDepth that starts with operation number Shard, without merging.
+func c08Worker(ctx *rt.Ctx, job *rt.Job) []*rt.Violation {
+	flk.Sequential(true)
+	defer flk.Sequential(false)
+	var a c08Args
+	job.Decode(&a)
+	w := newC08World(ctx)
+	defer w.close()
+	nq, ni := len(c08Queries()), len(w.idx)
+	var alpha []c08Step
+	for q := 0; q < nq; q++ {
+		for i := 0; i < ni; i++ {
+			alpha = append(alpha, c08Step{q, i})
+		}
+	}
+	var vs []*rt.Violation
+	idx := make([]int, 0, a.MaxDepth)
+	n := 0
+	var rec func() bool
+	rec = func() bool {
+		if len(idx) > 0 {
+			steps := make([]c08Step, len(idx))
+			for i, j := range idx {
+				steps[i] = alpha[j]
+			}
+			ctx.Cov.Add("unmerged_sequences", 1)
+			ctx.Cov.Add("traces_validated_against_impl", 1)
+			if viol, _ := c08Play(w, steps, true); viol != "" {
+				c := c08Case{Steps: steps}
+				vs = append(vs, rt.NewViolation("C08", "reuse", c.sig(), c, "%s", viol))
+				return false
+			}
+			if n++; n%512 == 0 && ctx.Expired() {
+				ctx.Cov.Cap(fmt.Sprintf("unmerged enumeration (first operation %d): deadline", job.Shard))
+				return false
+			}
+		}
+		if len(idx) == a.MaxDepth {
+			return true
+		}
+		for j := range alpha {
+			if len(idx) == 0 && j != job.Shard {
+				continue
+			}
+			idx = append(idx, j)
+			ok := rec()
+			idx = idx[:len(idx)-1]
+			if !ok {
+				return false
+			}
+		}
+		return true
+	}
+	rec()
+	return vs
+}
+
 func c08Run(ctx *rt.Ctx) []*rt.Violation {
 	flk.Sequential(true)
 	defer flk.Sequential(false)
@@ -272,39 +338,16 @@ func c08Run(ctx *rt.Ctx) []*rt.Violation {
 	// (2) cross-check of the merge: every sequence up to a depth, no merging, every step checked
 	maxd := 3
 	if ctx.Thorough() {
-		maxd = 5
+		maxd = 4
 	}
 	if len(vs) == 0 {
-		idx := make([]int, 0, maxd)
-		var rec func() bool
-		rec = func() bool {
-			if len(idx) > 0 {
-				steps := make([]c08Step, len(idx))
-				for i, j := range idx {
-					steps[i] = alpha[j]
-				}
-				ctx.Cov.Add("unmerged_sequences", 1)
-				ctx.Cov.Add("traces_validated_against_impl", 1)
-				if viol, _ := c08Play(w, steps, true); viol != "" {
-					c := c08Case{Steps: steps}
-					vs = append(vs, rt.NewViolation("C08", "reuse", c.sig(), c, "%s", viol))
-					return false
-				}
-			}
-			if len(idx) == maxd {
-				return true
-			}
-			for j := range alpha {
-				idx = append(idx, j)
-				ok := rec()
-				idx = idx[:len(idx)-1]
-				if !ok {
-					return false
-				}
-			}
-			return true
+		// one worker process per first operation
+		var jobs []rt.Job
+		b, _ := json.Marshal(c08Args{MaxDepth: maxd})
+		for s := range alpha {
+			jobs = append(jobs, rt.Job{Name: "unmerged", Shard: s, NShards: len(alpha), Args: b})
 		}
-		rec()
+		vs = append(vs, rt.Collect(ctx, rt.RunJobs(ctx, jobs, rt.SpawnOpt{}), nil)...)
 	}
 	// (3) a Query whose expression is edited in place by the caller between executions behaves like a fresh query of the
 	// new content (on the cached and on the uncached index)
@@ -402,5 +445,5 @@ func c08Replay(ctx *rt.Ctx, v *rt.Violation) *rt.Violation {
 }
 
 func init() {
-	register(&Property{ID: "C08", Level: "model_checking", Run: c08Run, Replay: c08Replay})
+	register(&Property{ID: "C08", Level: "model_checking", Run: c08Run, Worker: c08Worker, Replay: c08Replay})
 }
